@@ -41,12 +41,18 @@ def eval_const(expr, env):
     e = re.sub(r"\bu64::MAX\b", str(2**64 - 1), e)
     e = re.sub(r"\bu32::MAX\b", str(2**32 - 1), e)
     e = re.sub(r"\busize::MAX\b", str(2**64 - 1), e)
+    # `!0_u64`, `!0u32`, ... : all ones of that width
+    e = re.sub(r"!\s*0_?(u8|u16|u32|u64|usize)\b", lambda m: str(2 ** {"u8": 8, "u16": 16, "u32": 32, "u64": 64, "usize": 64}[m.group(1)] - 1), e)
     e = re.sub(r"\bu16::MAX\b", str(2**16 - 1), e)
     e = re.sub(r"\bu8::MAX\b", str(2**8 - 1), e)
     e = re.sub(r"\b(u64|u32|usize|u16|u8)::MIN\b", "0", e)
     e = re.sub(r"\b(?:u64|u32|usize|u16|u8)::max_value\(\)", lambda m: str({"u64": 2**64, "usize": 2**64, "u32": 2**32, "u16": 2**16, "u8": 2**8}[m.group(0).split(":")[0]] - 1), e)
     e = re.sub(r"\bas\s+(usize|u64|u32|u16|u8|i64|i32|f64|f32)\b", "", e)
     # literal spellings: digit separators, type suffixes (with or without an underscore), hex/octal/binary
+    SUF = r"(?:_?(?:u8|u16|u32|u64|usize|i32|i64))?"
+    e = re.sub(r"\b0x([0-9a-fA-F_]*[0-9a-fA-F])" + SUF + r"\b", lambda m: str(int(m.group(1).replace("_", ""), 16)), e)
+    e = re.sub(r"\b0o([0-7_]*[0-7])" + SUF + r"\b", lambda m: str(int(m.group(1).replace("_", ""), 8)), e)
+    e = re.sub(r"\b0b([01_]*[01])" + SUF + r"\b", lambda m: str(int(m.group(1).replace("_", ""), 2)), e)
     e = re.sub(r"(\d)_?(u8|u16|u32|u64|usize|i32|i64|f64|f32)\b", r"\1", e)
     e = re.sub(r"\b\d[0-9a-zA-Z_.]*", lambda m: m.group(0).replace("_", ""), e)
     e = re.sub(r"\b0x[0-9a-fA-F]+\b", lambda m: str(int(m.group(0), 16)), e)
